@@ -10,6 +10,7 @@ THEOREMS = [
     "Lou.C07.back_outputPos_range", "Lou.C07.back_inputPos_mono", "Lou.C07.back_inputPos_range",
     "Lou.C07.back_roundtrip",
             "Lou.ModelEngine.fwdRun_nonneg", "Lou.ModelEngine.model_fwd_roundtrip",
+            "Lou.ModelEngine.callFwd_eq",
 ]
 
 CLAIM = dict(
